@@ -100,6 +100,13 @@ impl Method for Vidya {
 		self.up_sum += change * (change > 0.) as u8 as ValueType;
 		self.dn_sum -= change * (change < 0.) as u8 as ValueType;
 
+		// a window without any change has exactly zero sums: do not let rounding residue survive it
+		#[allow(clippy::float_cmp)]
+		if change == 0. && self.window.iter().all(|&c| c == 0.) {
+			self.up_sum = 0.;
+			self.dn_sum = 0.;
+		}
+
 		self.last_output = if self.up_sum != 0. || self.dn_sum != 0. {
 			let cmo = ((self.up_sum - self.dn_sum) / (self.up_sum + self.dn_sum)).abs();
 			let f_cmo = self.f * cmo;
